@@ -1,5 +1,5 @@
 (* Proofs about the seeding model (C11). *)
-From Coq Require Import ZArith List Bool Lia Arith.
+From Coq Require Import ZArith List Bool Lia Arith Sorted.
 Import ListNotations.
 From MP Require Import Base Grid Seed.
 Local Open Scope Z_scope.
@@ -859,13 +859,16 @@ Example ex_can_skip :
   can_skip (Some [(0, 4); (0, 4); (2, 4)]) (Some [(0, 4); (0, 4); (2, 4); (1, 4)]) = false.
 Proof. vm_compute. auto. Qed.
 
-(* a walk that raises: coverage 0.1 px wide at level 1 straddling a tile edge of level 1 (known finding
-   C11-sliver); the hypothesis err_free of the resume theorems excludes it *)
+(* the former witness of finding C11-sliver: a coverage 0.03 px wide at level 1 that straddles a tile edge of level 1;
+   before the repair of MetaGrid.get_affected_level_tiles the walk raised GridError at level 1, now it completes *)
 Definition ex_sliver_cov : bbox := (5100, 100, 5140, 6000).
 Definition ex_sliver_tree : wnode :=
   geo_tree ex_grid 1 1 (cov_bboxes [ex_sliver_cov]) 0 2 4 ex_sliver_cov [0; 1; 2] 0 false.
-Example ex_sliver_raises :
-  run_walk None ex_sliver_tree 0 = [ERep 0 None; EErr].
+Example ex_sliver_completes :
+  run_walk None ex_sliver_tree 0 =
+  [ERep 0 None; ERep 1 (Some [(0, 1)]); ERep 2 (Some [(0, 1); (0, 2)]);
+   EProc (2, 2, 2); EProc (1, 1, 1); ERep 2 (Some [(0, 1); (1, 2)]);
+   EProc (2, 1, 2); EProc (2, 0, 2); EProc (1, 0, 1); EProc (0, 0, 0); ERep 0 (Some [])].
 Proof. vm_compute. reflexivity. Qed.
 
 Lemma resumed_nothing_else_lemma tree final_lv old t :
@@ -997,18 +1000,271 @@ Example ex_everything_processed :
   [(0, 2, 2); (2, 2, 2); (0, 0, 2); (2, 0, 2); (0, 0, 1)].
 Proof. vm_compute. reflexivity. Qed.
 
-(* the statement "every walk over a well-formed grid with a non-degenerate bbox coverage and valid levels completes"
-   is false of the faithful model (finding C11-sliver) *)
-Lemma walk_completes_refuted_lemma :
-  exists g msx msy c levels,
-    gx0 g < gx1 g /\ gy0 g < gy1 g /\ 0 < tw g /\ 0 < th g /\ (forall r, In r (ress g) -> 0 < r) /\
-    0 < msx /\ 0 < msy /\ (forall l, In l levels -> valid_level g l = true) /\
-    (let '(c0, c1, c2, c3) := c in c0 < c2 /\ c1 < c3) /\
-    In EErr (geo_walk g msx msy (cov_bboxes [c]) 0 levels c None).
+(* ------------------------------------------------------------------ the geometric walk never raises *)
+
+Definition geo_wf (g : grid) (msx msy : Z) : Prop :=
+  0 < tw g /\ 0 < th g /\ (forall r, In r (ress g) -> 0 < r) /\ 0 < msx /\ 0 < msy.
+
+(* what LevelsList.for_grid guarantees: strictly increasing valid levels *)
+Definition levels_wf (g : grid) (levels : list Z) : Prop :=
+  StronglySorted Z.lt levels /\ forall x, In x levels -> valid_level g x = true.
+
+Lemma up_range_nonempty a b s : a <= b -> 0 < s -> exists h t, up_range a b s = h :: t.
 Proof.
-  exists ex_grid, 1, 1, ex_sliver_cov, [0; 1; 2]. cbn [gx0 gx1 gy0 gy1 tw th ress ex_grid].
-  repeat split; try lia.
-  - intros r [<-|[<-|[<-|[]]]]; lia.
-  - intros l [<-|[<-|[<-|[]]]]; reflexivity.
-  - vm_compute. tauto.
+  intros Hab Hs. unfold up_range.
+  assert (0 <= (b - a) / s) by (apply Z.div_pos; lia).
+  destruct (Z.to_nat ((b - a) / s + 1)) as [|n] eqn:E; [lia|]. cbn [seq map]. eauto.
+Qed.
+
+Lemma down_range_nonempty a b s : b <= a -> 0 < s -> exists h t, down_range a b s = h :: t.
+Proof.
+  intros Hab Hs. unfold down_range.
+  assert (0 <= (a - b) / s) by (apply Z.div_pos; lia).
+  destruct (Z.to_nat ((a - b) / s + 1)) as [|n] eqn:E; [lia|]. cbn [seq map]. eauto.
+Qed.
+
+Lemma align_mono a b s : 0 < s -> a <= b -> a / s * s <= b / s * s.
+Proof. intros Hs Hab. apply Z.mul_le_mono_nonneg_r; [lia|]. apply Z.div_le_mono; lia. Qed.
+
+Lemma geo_res_pos g msx msy l : geo_wf g msx msy -> valid_level g l = true -> 0 < res_at g l.
+Proof.
+  intros (_ & _ & Hp & _) Hv. unfold valid_level, levels in Hv. unfold res_at. apply Hp. apply nth_In.
+  apply andb_true_iff in Hv. destruct Hv as [H1 H2]. apply Z.leb_le in H1. apply Z.ltb_lt in H2. lia.
+Qed.
+
+(* after the repair get_affected_level_tiles never produces an empty tile range *)
+Lemma meta_affected_valid g msx msy b l :
+  geo_wf g msx msy -> valid_level g l = true ->
+  exists nx ny tiles, meta_affected g msx msy b l = MAff nx ny tiles.
+Proof.
+  intros Hwf Hv. pose proof (geo_res_pos g msx msy l Hwf Hv) as Hr.
+  destruct Hwf as (Htw & Hth & _ & Hmx & Hmy).
+  destruct b as [[[bx0 by0] bx1] by1]. unfold meta_affected, tile2, meta_size, grid_size.
+  set (r := res_at g l) in *. set (delta := r / 10).
+  set (minx2 := if bx1 - delta <? bx0 + delta then bx0 + bx1 else 2 * (bx0 + delta)).
+  set (maxx2 := if bx1 - delta <? bx0 + delta then bx0 + bx1 else 2 * (bx1 - delta)).
+  set (miny2 := if by1 - delta <? by0 + delta then by0 + by1 else 2 * (by0 + delta)).
+  set (maxy2 := if by1 - delta <? by0 + delta then by0 + by1 else 2 * (by1 - delta)).
+  assert (Hx : minx2 <= maxx2) by (subst minx2 maxx2; destruct (bx1 - delta <? bx0 + delta) eqn:E; [lia|apply Z.ltb_ge in E; lia]).
+  assert (Hy : miny2 <= maxy2) by (subst miny2 maxy2; destruct (by1 - delta <? by0 + delta) eqn:E; [lia|apply Z.ltb_ge in E; lia]).
+  set (sx := Z.min msx (axis_tiles (gx1 g - gx0 g) r (tw g))).
+  set (sy := Z.min msy (axis_tiles (gy1 g - gy0 g) r (th g))).
+  assert (Hsx : 0 < sx) by (subst sx; unfold axis_tiles; lia).
+  assert (Hsy : 0 < sy) by (subst sy; unfold axis_tiles; lia).
+  assert (Dx : 0 < 2 * (r * tw g)) by nia. assert (Dy : 0 < 2 * (r * th g)) by nia.
+  assert (Htx : (minx2 - 2 * gx0 g) / (2 * (r * tw g)) <= (maxx2 - 2 * gx0 g) / (2 * (r * tw g)))
+    by (apply Z.div_le_mono; lia).
+  destruct (up_range_nonempty _ _ sx (align_mono _ _ sx Hsx Htx) Hsx) as (hx & tx & Ex). rewrite Ex.
+  destruct (ul g).
+  - assert (Hty : (2 * gy1 g - maxy2) / (2 * (r * th g)) <= (2 * gy1 g - miny2) / (2 * (r * th g)))
+      by (apply Z.div_le_mono; lia).
+    destruct (up_range_nonempty _ _ sy (align_mono _ _ sy Hsy Hty) Hsy) as (hy & ty & Ey). rewrite Ey. eauto.
+  - assert (Hty : (miny2 - 2 * gy0 g) / (2 * (r * th g)) <= (maxy2 - 2 * gy0 g) / (2 * (r * th g)))
+      by (apply Z.div_le_mono; lia).
+    destruct (down_range_nonempty _ _ sy (align_mono _ _ sy Hsy Hty) Hsy) as (hy & ty & Ey). rewrite Ey. eauto.
+Qed.
+
+Lemma err_free_intro lv proc rep total subs :
+  (forall t c, In (SRec t c) subs -> err_free c) -> err_free (WNode lv proc rep total subs).
+Proof.
+  cbn [err_free]. induction subs as [|s r IH]; intros H; [exact I|].
+  destruct s as [|t|t c].
+  - apply IH. intros t c Hin. apply (H t c). right. exact Hin.
+  - apply IH. intros t' c Hin. apply (H t' c). right. exact Hin.
+  - split; [apply (H t c); left; reflexivity|]. apply IH. intros t' c' Hin. apply (H t' c'). right. exact Hin.
+Qed.
+
+Lemma mem_z_in x l : mem_z x l = true <-> In x l.
+Proof.
+  unfold mem_z. rewrite existsb_exists. split.
+  - intros (y & Hy & E). apply Z.eqb_eq in E. subst. exact Hy.
+  - intros H. exists x. split; [exact H|apply Z.eqb_refl].
+Qed.
+
+Lemma levels_step l levels :
+  StronglySorted Z.lt levels -> (forall x, In x levels -> l <= x) ->
+  let levels' := if mem_z l levels then tl levels else levels in
+  StronglySorted Z.lt levels' /\ (forall x, In x levels' -> l + 1 <= x) /\ (forall x, In x levels' -> In x levels).
+Proof.
+  intros Hs Hlb. destruct (mem_z l levels) eqn:E; cbv zeta.
+  - apply mem_z_in in E. destruct levels as [|h t]; [destruct E|]. cbn [tl].
+    inversion Hs as [|? ? Hst Hall]; subst. rewrite Forall_forall in Hall.
+    assert (h = l).
+    { destruct E as [E|E]; [exact E|]. pose proof (Hall _ E). pose proof (Hlb h (or_introl eq_refl)). lia. }
+    subst h. split; [exact Hst|]. split; [|intros x Hx; right; exact Hx].
+    intros x Hx. pose proof (Hall _ Hx). lia.
+  - split; [exact Hs|]. split; [|auto]. intros x Hx. pose proof (Hlb x Hx).
+    assert (x <> l); [|lia]. intros ->. apply mem_z_in in Hx. congruence.
+Qed.
+
+Lemma geo_tree_err_free g msx msy cov skipk rtl :
+  geo_wf g msx msy ->
+  forall fuel cur lvls l all,
+    valid_level g l = true -> (Z.to_nat (Grid.levels g - l) <= fuel)%nat ->
+    StronglySorted Z.lt lvls -> (forall x, In x lvls -> l <= x) ->
+    (forall x, In x lvls -> valid_level g x = true) ->
+    err_free (geo_tree g msx msy cov skipk rtl fuel cur lvls l all).
+Proof.
+  intros Hwf. induction fuel as [|f IH]; intros cur lvls l all Hv Hfuel Hs Hlb Hval.
+  - exfalso. unfold valid_level in Hv. apply andb_true_iff in Hv. destruct Hv as [H1 H2].
+    apply Z.leb_le in H1. apply Z.ltb_lt in H2. lia.
+  - cbn [geo_tree]. rewrite Hv. cbn [negb].
+    destruct (meta_affected_valid g msx msy cur l Hwf Hv) as (nx & ny & tiles & ->).
+    destruct (levels_step l lvls Hs Hlb) as (Hs' & Hlb' & Hsub).
+    set (lvls' := if mem_z l lvls then tl lvls else lvls) in *.
+    apply err_free_intro. intros t c Hin. apply in_map_iff in Hin. destruct Hin as (ot & Hot & _).
+    destruct ot as [t0|]; cbn [geo_sub] in Hot; [|discriminate].
+    match type of Hot with (if ?b then _ else _) = _ => destruct b end; [discriminate|].
+    destruct lvls' as [|l1 lr] eqn:El; [discriminate|]. injection Hot as _ <-.
+    assert (Hv1 : valid_level g (l + 1) = true).
+    { pose proof (Hlb' l1 (or_introl eq_refl)). pose proof (Hval l1 (Hsub l1 (or_introl eq_refl))) as Hv1.
+      unfold valid_level in *. apply andb_true_iff in Hv. apply andb_true_iff in Hv1.
+      apply andb_true_iff. rewrite Z.leb_le, Z.ltb_lt in *. lia. }
+    apply IH; auto.
+    unfold valid_level in Hv. apply andb_true_iff in Hv. rewrite Z.leb_le, Z.ltb_lt in Hv. lia.
+Qed.
+
+(* every seed task on a well-formed grid with sorted valid levels runs to completion: no _walk call raises *)
+Lemma geo_walk_err_free g msx msy cov skipk levels root :
+  geo_wf g msx msy -> levels_wf g levels -> levels <> [] ->
+  err_free (geo_tree g msx msy cov skipk (report_till levels) (S (length (ress g))) root levels 0 false).
+Proof.
+  intros Hwf [Hs Hval] Hne. apply geo_tree_err_free; auto.
+  - destruct levels as [|h t]; [congruence|]. pose proof (Hval h (or_introl eq_refl)) as Hv.
+    unfold valid_level in *. apply andb_true_iff in Hv. rewrite Z.leb_le, Z.ltb_lt in Hv.
+    apply andb_true_iff. rewrite Z.leb_le, Z.ltb_lt. lia.
+  - unfold Grid.levels. lia.
+  - intros x Hx. pose proof (Hval x Hx) as Hv. unfold valid_level in Hv. apply andb_true_iff in Hv.
+    rewrite Z.leb_le in Hv. lia.
+Qed.
+
+Lemma walk_completes_lemma g msx msy cov skipk levels root old :
+  geo_wf g msx msy -> levels_wf g levels -> levels <> [] ->
+  ~ In EErr (geo_walk g msx msy cov skipk levels root old).
+Proof.
+  intros Hwf Hl Hne. unfold geo_walk.
+  destruct (run_walk_shape _ old (hd 0 levels) (geo_walk_err_free g msx msy cov skipk levels root Hwf Hl Hne)) as (fin & ->).
+  intros H. apply in_app_or in H. destruct H as [H|[H|[]]]; [|discriminate]. exact (dd_no_err _ _ H).
+Qed.
+
+(* the resume and soundness theorems for seed tasks on a grid, without an assumption that nothing raises *)
+Lemma resume_covers_geo_lemma g msx msy cov skipk levels root k j lv id :
+  geo_wf g msx msy -> levels_wf g levels -> levels <> [] ->
+  nth_error (geo_walk g msx msy cov skipk levels root None) j = Some (ERep lv id) -> (j < k)%nat ->
+  incl (procs (geo_walk g msx msy cov skipk levels root None))
+       (procs (firstn k (geo_walk g msx msy cov skipk levels root None)) ++
+        procs (geo_walk g msx msy cov skipk levels root id)).
+Proof.
+  intros Hwf Hl Hne. unfold geo_walk. apply resume_covers_lemma.
+  apply geo_walk_err_free; assumption.
+Qed.
+
+Lemma walk_sound_geo_lemma g msx msy cov levels root old t :
+  geo_wf g msx msy -> levels_wf g levels -> levels <> [] ->
+  cov_monotone g msx msy cov ->
+  In t (procs (geo_walk g msx msy cov 0 levels root old)) ->
+  cov (meta_bbox g msx msy t) <> 0.
+Proof.
+  intros Hwf Hl Hne Hm. apply walk_sound_lemma; [assumption|]. apply geo_walk_err_free; assumption.
+Qed.
+
+Example ex_geo_wf : geo_wf ex_grid 1 1 /\ levels_wf ex_grid [0; 1; 2].
+Proof.
+  split.
+  - unfold geo_wf. cbn [tw th ress ex_grid]. repeat split; try lia. intros r [<-|[<-|[<-|[]]]]; lia.
+  - split.
+    + repeat constructor; lia.
+    + intros x [<-|[<-|[<-|[]]]]; reflexivity.
+Qed.
+
+(* ------------------------------------------------------------------ everything selected: chains of selected meta tiles *)
+
+(* a chain of meta tiles, one per level from l downwards: each is among the tiles get_affected_level_tiles lists for the
+   rectangle left by its predecessor (cur, then limit_sub_bbox cur (meta tile bbox)), and none is NONE for the coverage *)
+Fixpoint chain_ok (g : grid) (msx msy : Z) (cov : bbox -> Z) (cur : bbox) (l : Z) (ch : list coord) : Prop :=
+  match ch with
+  | [] => True
+  | c :: rest =>
+    In (Some c) (affected_tiles g msx msy cur l) /\ cov (meta_bbox g msx msy c) <> 0 /\
+    chain_ok g msx msy cov (limit_sub_bbox cur (meta_bbox g msx msy c)) (l + 1) rest
+  end.
+
+Lemma isubs_in {B} (f : sub wnode -> list B) subs s : In s subs -> forall i, incl (f s) (isubs (fun _ x => f x) subs i).
+Proof.
+  induction subs as [|x r IH]; intros Hin i; [destruct Hin|]. cbn [isubs].
+  destruct Hin as [->|Hin]; [apply incl_appl, incl_refl|apply incl_appr, IH; assumption].
+Qed.
+
+Lemma levels_keep l lvls x :
+  StronglySorted Z.lt lvls -> (forall y, In y lvls -> l <= y) -> In x lvls -> x <> l ->
+  In x (if mem_z l lvls then tl lvls else lvls).
+Proof.
+  intros Hs Hlb Hx Hne. destruct (mem_z l lvls) eqn:E; [|exact Hx].
+  apply mem_z_in in E. destruct lvls as [|h t]; [destruct E|]. cbn [tl].
+  inversion Hs as [|? ? Hst Hall]; subst. rewrite Forall_forall in Hall.
+  assert (h = l).
+  { destruct E as [E|E]; [exact E|]. pose proof (Hall _ E). pose proof (Hlb h (or_introl eq_refl)). lia. }
+  subst h. destruct Hx as [Hx|Hx]; [congruence|exact Hx].
+Qed.
+
+Lemma geo_tree_complete g msx msy cov skipk rtl :
+  forall fuel cur lvls l all ch,
+    0 <= l -> (Z.to_nat (Grid.levels g - l) <= fuel)%nat ->
+    StronglySorted Z.lt lvls -> (forall x, In x lvls -> l <= x) ->
+    (forall x, In x lvls -> valid_level g x = true) ->
+    ch <> [] -> chain_ok g msx msy cov cur l ch ->
+    In (l + Z.of_nat (length ch) - 1) lvls ->
+    In (last ch (0, 0, 0)) (full (geo_tree g msx msy cov skipk rtl fuel cur lvls l all)).
+Proof.
+  induction fuel as [|f IH]; intros cur lvls l all ch Hl0 Hfuel Hs Hlb Hval Hne Hch HL.
+  - exfalso. pose proof (Hval _ HL) as Hv. unfold valid_level in Hv. apply andb_true_iff in Hv.
+    rewrite Z.leb_le, Z.ltb_lt in Hv. destruct ch; [congruence|]. cbn [length] in Hv. lia.
+  - destruct ch as [|c rest]; [congruence|]. destruct Hch as (Hsel & Hcov & Hrest).
+    assert (Hv : valid_level g l = true).
+    { pose proof (Hval _ HL) as Hv. unfold valid_level in *. apply andb_true_iff in Hv.
+      rewrite Z.leb_le, Z.ltb_lt in Hv. apply andb_true_iff. rewrite Z.leb_le, Z.ltb_lt. cbn [length] in Hv. lia. }
+    cbn [geo_tree]. rewrite Hv. cbn [negb]. unfold affected_tiles in Hsel.
+    destruct (meta_affected g msx msy cur l) as [nx ny tiles|]; [|destruct Hsel].
+    destruct (levels_step l lvls Hs Hlb) as (Hs' & Hlb' & Hsub).
+    pose proof (fun x => levels_keep l lvls x Hs Hlb) as Hkeep.
+    set (lvls' := if mem_z l lvls then tl lvls else lvls) in *.
+    set (all1 := if Z.of_nat (length lvls) <? skipk then true else all).
+    cbn [full].
+    set (s := geo_sub g msx msy cov (fun b a => geo_tree g msx msy cov skipk rtl f b lvls' (l + 1) a) cur lvls' all1 (Some c)).
+    assert (Hins : In s (map (geo_sub g msx msy cov (fun b a => geo_tree g msx msy cov skipk rtl f b lvls' (l + 1) a) cur lvls' all1) tiles))
+      by (apply in_map; exact Hsel).
+    apply (isubs_in (full_sub full (mem_z l lvls)) _ s Hins 0).
+    subst s. cbn [geo_sub].
+    assert (E0 : ((if all1 then -1 else cov (meta_bbox g msx msy c)) =? 0) = false)
+      by (apply Z.eqb_neq; destruct all1; [lia|exact Hcov]).
+    rewrite E0.
+    destruct rest as [|c2 rest2].
+    + (* the chain ends at this level *)
+      cbn [length last] in *. replace (l + Z.of_nat 1 - 1) with l in HL by lia.
+      apply mem_z_in in HL. rewrite HL.
+      destruct lvls' as [|l1 lr]; cbn [full_sub]; [left; reflexivity|apply in_or_app; right; left; reflexivity].
+    + (* the chain continues *)
+      assert (HL' : In (l + Z.of_nat (length (c :: c2 :: rest2)) - 1) lvls') by (apply Hkeep; [exact HL|cbn [length]; lia]).
+      destruct lvls' as [|l1 lr] eqn:El; [destruct HL'|]. cbn [full_sub]. apply in_or_app. left.
+      change (last (c :: c2 :: rest2) (0, 0, 0)) with (last (c2 :: rest2) (0, 0, 0)).
+      apply IH; auto; try discriminate; try lia.
+      * unfold valid_level in Hv. apply andb_true_iff in Hv. rewrite Z.leb_le, Z.ltb_lt in Hv. lia.
+      * cbn [length] in *. replace (l + 1 + Z.of_nat (S (length rest2)) - 1) with (l + Z.of_nat (S (S (length rest2))) - 1) by lia.
+        exact HL'.
+Qed.
+
+(* every chain of selected, not-NONE meta tiles from level 0 to a seeded level ends in a tile that is handed over *)
+Lemma walk_complete_chain_lemma g msx msy cov skipk levels root ch :
+  geo_wf g msx msy -> levels_wf g levels ->
+  ch <> [] -> chain_ok g msx msy cov root 0 ch ->
+  In (Z.of_nat (length ch) - 1) levels ->
+  In (last ch (0, 0, 0)) (procs (geo_walk g msx msy cov skipk levels root None)).
+Proof.
+  intros Hwf [Hs Hval] Hne Hch HL. unfold geo_walk.
+  assert (Hnl : levels <> []) by (intros ->; destruct HL).
+  apply (uninterrupted_is_full _ _ (geo_walk_err_free g msx msy cov skipk levels root Hwf (conj Hs Hval) Hnl)).
+  apply geo_tree_complete; auto; try lia.
+  - unfold Grid.levels. lia.
+  - intros x Hx. pose proof (Hval x Hx) as Hv. unfold valid_level in Hv. apply andb_true_iff in Hv.
+    rewrite Z.leb_le in Hv. lia.
 Qed.
